@@ -4,7 +4,7 @@
     classical-reals axioms through Flocq; the purely combinatorial ones are closed. *)
 From Coq Require Import ZArith List Bool Reals Permutation Sorted.
 From Flocq Require Import IEEE754.BinarySingleNaN IEEE754.Binary IEEE754.Bits Core.
-From JrV Require Import Gen.GenConsts Gen.GenNum C09.Model C09.Proofs.
+From JrV Require Import Gen.GenConsts Gen.GenNum C09.Model C09.Proofs C09.ProofsSet.
 Import ListNotations.
 Open Scope Z_scope.
 
@@ -54,41 +54,35 @@ Theorem C09_no_nonfinite_observable :
 Proof. exact no_nonfinite. Qed.
 Print Assumptions C09_no_nonfinite_observable.
 
-(** With IEEE equality exactly one of a<b, a==b, a>b holds and <=, >=, the swapped comparisons
-    are the derived combinations. *)
+(** Exactly one of a<b, a==b, a>b holds (== is the code's [primitive_equals] on numbers, exact
+    since ce0d2fe), and <=, >=, the swapped comparison and != are the derived combinations. *)
 Theorem C09_trichotomy :
   forall a b, finite a = true -> finite b = true ->
-  exactly_one (lt_impl a b) (eq_spec a b) (gt_impl a b) /\
-  le_impl a b = (lt_impl a b || eq_spec a b) /\
-  ge_impl a b = (gt_impl a b || eq_spec a b) /\
+  exactly_one (lt_impl a b) (eq_impl a b) (gt_impl a b) /\
+  le_impl a b = (lt_impl a b || eq_impl a b) /\
+  ge_impl a b = (gt_impl a b || eq_impl a b) /\
   gt_impl a b = lt_impl b a /\
-  eq_spec a b = eq_spec b a.
-Proof. exact trichotomy. Qed.
+  eq_impl a b = eq_impl b a.
+Proof. exact trichotomy_impl. Qed.
 Print Assumptions C09_trichotomy.
 
-(** FINDING: the epsilon equality of val.rs breaks the trichotomy (1e-20 vs 2e-20) ... *)
-Theorem C09_trichotomy_refuted :
-  num_eq_epsilon = true ->
-  exists a b, finite a = true /\ finite b = true /\ eq_impl a b = true /\ lt_impl a b = true.
-Proof. exact eq_impl_refuted. Qed.
-Print Assumptions C09_trichotomy_refuted.
-
-(** ... and is not even an equivalence (0, 2^-52, 2^-51). *)
-Theorem C09_eq_epsilon_not_transitive :
-  exists a b c, finite a = true /\ finite b = true /\ finite c = true /\
-    eq_eps a b = true /\ eq_eps b c = true /\ eq_eps a c = false.
-Proof. exact eq_eps_not_transitive. Qed.
-Print Assumptions C09_eq_epsilon_not_transitive.
-
-(** Outside the known class (a != b and |a - b| <= 2^-52 as computed in f64) the code's `==`
-    is IEEE equality, so the trichotomy above holds for it. *)
-Theorem C09_eq_outside_known :
+(** the code's `==` on numbers is IEEE equality: equal real values, +0 == -0 ... *)
+Theorem C09_eq_is_ieee :
   forall a b, finite a = true -> finite b = true ->
-  known_eps a b = false -> eq_impl a b = eq_spec a b.
-Proof. exact eq_outside_known. Qed.
-Print Assumptions C09_eq_outside_known.
+  eq_impl a b = eq_spec a b /\ (eq_impl a b = true <-> B2R64 a = B2R64 b).
+Proof. intros a b Ha Hb. split; [apply eq_impl_ieee|now apply eq_impl_key]. Qed.
+Print Assumptions C09_eq_is_ieee.
 
-(** std.sort returns an ascending rearrangement ... *)
+(** ... hence an equivalence relation (it was not under the former epsilon comparison). *)
+Theorem C09_eq_equivalence :
+  (forall a, finite a = true -> eq_impl a a = true) /\
+  (forall a b, finite a = true -> finite b = true -> eq_impl a b = true -> eq_impl b a = true) /\
+  (forall a b c, finite a = true -> finite b = true -> finite c = true ->
+     eq_impl a b = true -> eq_impl b c = true -> eq_impl a c = true).
+Proof. exact eq_impl_equivalence. Qed.
+Print Assumptions C09_eq_equivalence.
+
+(** std.sort returns an ascending rearrangement. *)
 Theorem C09_sort_sorted :
   forall l, Forall (fun y => finite y = true) l ->
   Sorted lef (sort_impl l) /\ Forall (fun y => finite y = true) (sort_impl l).
@@ -99,30 +93,27 @@ Theorem C09_sort_permutation : forall l, Permutation (sort_impl l) l.
 Proof. exact sort_perm. Qed.
 Print Assumptions C09_sort_permutation.
 
-(** ... and std.uniq / std.set coincide with their IEEE-equality definitions when no two
-    elements fall in the known class. *)
-Theorem C09_set_outside_known :
-  forall l, Forall (fun y => finite y = true) l ->
-  (forall a b, In a l -> In b l -> known_eps a b = false) ->
-  uniq_impl l = uniq_spec l /\ set_impl l = set_spec l.
-Proof. exact set_outside_known. Qed.
-Print Assumptions C09_set_outside_known.
+(** std.uniq / std.set are their IEEE-equality definitions ... *)
+Theorem C09_set_is_spec :
+  forall l, uniq_impl l = uniq_spec l /\ set_impl l = set_spec l.
+Proof. exact set_is_spec. Qed.
+Print Assumptions C09_set_is_spec.
 
-(** FINDING: an element of l need not be a setMember of set(l) (uniq merges what sort orders). *)
-Theorem C09_sort_set_coherent_refuted :
-  num_eq_epsilon = true ->
-  exists l x, Forall (fun y => finite y = true) l /\ In x l /\
-              set_member_impl x (set_impl l) = Some false /\ set_member_impl x (set_spec l) = Some true.
-Proof. exact set_refuted. Qed.
-Print Assumptions C09_sort_set_coherent_refuted.
+(** ... std.set is strictly ascending under <, and std.setMember(x, std.set(l)) is true exactly
+    when some element of l is == x: sort, set and setMember agree with < and ==. *)
+Theorem C09_sort_set_coherent :
+  forall l x, Forall (fun y => finite y = true) l -> finite x = true ->
+  Sorted ltk (set_impl l) /\
+  set_member_impl x (set_impl l) = Some (existsb (fun y => eq_impl y x) l).
+Proof. exact sort_set_coherent. Qed.
+Print Assumptions C09_sort_set_coherent.
 
-(** PARTIAL for std.setMember: a hit of the binary search is an element comparing equal (any
-    array).  Not proved: completeness on strictly ascending arrays (tied by correspondence). *)
-Theorem C09_set_member_sound_partial :
-  forall x l fuel low high,
-  bsearch fuel x l low high = Some true -> exists y, In y l /\ cmp y x = Eq.
-Proof. exact bsearch_sound. Qed.
-Print Assumptions C09_set_member_sound_partial.
+(** std.setMember's binary search decides == membership on every strictly ascending array. *)
+Theorem C09_set_member_complete :
+  forall x l, finite x = true -> Forall (fun y => finite y = true) l -> Sorted ltk l ->
+  set_member_impl x l = Some (existsb (fun y => eq_spec y x) l).
+Proof. exact set_member_complete. Qed.
+Print Assumptions C09_set_member_complete.
 
 (** & | ^ : error outside the safe-integer range, otherwise the operation on the integer values. *)
 Theorem C09_bitwise_spec :
@@ -152,28 +143,14 @@ Theorem C09_shift_guard_refuted :
 Proof. exact shl_refuted. Qed.
 Print Assumptions C09_shift_guard_refuted.
 
-(** `>>`: arithmetic shift by count mod 64 of a safe base, outside the known class (count above
-    the safe range is not rejected). *)
+(** `>>`: count >= 0, both operands in the safe range (8b733a9), arithmetic shift by count mod 64. *)
 Theorem C09_shr_spec :
-  forall a b, finite a = true -> finite b = true ->
-  known_shr_count a b = false -> shr_impl a b = shr_spec a b.
-Proof. exact shr_refines. Qed.
+  forall a b, finite a = true -> finite b = true -> shr_impl a b = shr_spec a b.
+Proof. exact shr_refines_all. Qed.
 Print Assumptions C09_shr_spec.
 
-Theorem C09_shr_count_refuted :
-  shr_count_checked = false -> exists a b, finite a = true /\ finite b = true /\
-  enc_num (shr_impl a b) = 4607182418800017408 /\ shr_spec a b = None /\ known_shr_count a b = true.
-Proof. exact shr_refuted. Qed.
-Print Assumptions C09_shr_count_refuted.
-
-(** `~` *)
+(** `~`: error outside the safe range (8b733a9), otherwise -x-1 on the integer value. *)
 Theorem C09_bitnot_range :
-  forall a, finite a = true -> known_bnot a = false -> bnot_impl a = bnot_spec a.
-Proof. exact bnot_refines. Qed.
+  forall a, finite a = true -> bnot_impl a = bnot_spec a.
+Proof. exact bnot_refines_all. Qed.
 Print Assumptions C09_bitnot_range.
-
-Theorem C09_bitnot_range_refuted :
-  bitnot_checked = false -> exists a, finite a = true /\
-  enc_num (bnot_impl a) = 14114281232179134464 /\ bnot_spec a = None /\ known_bnot a = true.
-Proof. exact bnot_refuted. Qed.
-Print Assumptions C09_bitnot_range_refuted.
